@@ -123,8 +123,12 @@ def parse_file(data, fmt, hierarchy, workdir, name="p"):
     out = os.path.join(workdir, f"{name}.{fmt}")
     with open(src, "wb") as fh:
         fh.write(data)
-    if os.path.exists(out):
-        os.unlink(out)
+    # the output path is not fresh: an earlier, longer description (of an envelope with many payloads) lies there and is replaced
+    with open(out, "w") as fh:
+        if fmt == "json":
+            fh.write('{"SUIT_Envelope_Tagged": {"suit-integrated-payloads": {' + ", ".join(f'"#stale{i}": "ABAB"' for i in range(6000)) + "}}}\n")
+        else:
+            fh.write("SUIT_Envelope_Tagged:\n  suit-integrated-payloads:\n" + "".join(f"    '#stale{i}': ABAB\n" for i in range(6000)))
     main(input_file=src, output_file=out, output_format="AUTO", parse_hierarchy=hierarchy)
     return out
 
